@@ -36,7 +36,7 @@ ASSUMPTIONS = ['the default-outputs clause is not judged for tasks whose '
 MIN = {'c29.set_commands': 250, 'c29.output_checks_explicit': 80,
        'c29.output_checks_default': 40, 'c29.spawn_checks': 60,
        'c29.child_atom_checks': 40, 'c29.prereq_key_checks': 40}
-NCASES = {'quick': 240, 'thorough': 3000}
+NCASES = {'quick': 800, 'thorough': 10000}
 MONS = ['c29', 'c26']
 
 
